@@ -15,6 +15,15 @@ import (
 var verifDangerous = []string{"http.send", "net.lookup_ip_addr", "opa.runtime", "rego.parse_module", "walk"}
 
 func verifGateOK(i int) bool {
+	// only the three options the gate is made of: anything else (a caller-supplied compiler,
+	// capabilities, a store, …) may take the deny-list out of the loop
+	kinds, _ := v.RegoNewOption(i, "kinds").([]string)
+	for _, k := range kinds {
+		if k != "query" && k != "module" && k != "unsafe" {
+			v.Note("extra-option", k)
+			return false
+		}
+	}
 	names, ok := v.RegoNewOption(i, "unsafe").([]string)
 	if !ok {
 		return false
@@ -38,14 +47,15 @@ func verifGateOK(i int) bool {
 // deny-list names every built-in the property lists.
 func VerifC08Gate() {
 	ep := v.Choice("entry", 3)
+	debug := v.Choice("debug", 2) == 1
 	v.Scope("v")
 	switch ep {
 	case 0:
-		ProcessProfile(verifProfile, false, nil)
+		ProcessProfile(verifProfile, debug, nil)
 	case 1:
-		Validate(verifProfile, "<<data>>", false, nil)
+		Validate(verifProfile, "<<data>>", debug, nil)
 	default:
-		ValidateWithConfiguration(verifProfile, "<<data>>", false, nil, c.TestValidationConfiguration{}, c.DefaultReportConfiguration())
+		ValidateWithConfiguration(verifProfile, "<<data>>", debug, nil, c.TestValidationConfiguration{}, c.DefaultReportConfiguration())
 	}
 	v.Reach("compiled")
 	n := v.RegoNewCount()
@@ -128,4 +138,24 @@ func VerifC08Splice() {
 	v.Assert("C08.gate-used", v.RegoNewCount() == 1)
 	v.Assert("C08.module-is-code", v.RegoNewOption(0, "module.code") == unit.Code)
 	v.Assert("C08.denylist-complete", verifGateOK(0))
+}
+
+// VerifC08GateNative: the observable consequence of a gate that is not (only) the deny-list —
+// a profile calling a listed built-in is accepted through the recorded entry point / debug flag.
+func VerifC08GateNative() {
+	ep, debug := v.ReplayInt("entry"), v.ReplayInt("debug") == 1
+	calls := []string{`http.send({"method": "get", "url": "http://localhost:1"})`, `net.lookup_ip_addr("localhost")`, `opa.runtime()`, `rego.parse_module("x.rego", "package x")`}
+	for _, call := range calls {
+		prof := "#%Validation Profile 1.0\nprofile: T\nviolation:\n  - v1\nvalidations:\n  v1:\n    message: m\n    targetClass: apiContract.WebAPI\n    rego: |\n      out := " + call + "\n      $result = true\n"
+		var err error
+		switch ep {
+		case 0:
+			_, err = ProcessProfile(prof, debug, nil)
+		case 1:
+			_, err = Validate(prof, `{"@id": "http://x/a", "@type": "http://a.ml/vocabularies/apiContract#WebAPI"}`, debug, nil)
+		default:
+			_, err = ValidateWithConfiguration(prof, `{"@id": "http://x/a", "@type": "http://a.ml/vocabularies/apiContract#WebAPI"}`, debug, nil, c.TestValidationConfiguration{}, c.DefaultReportConfiguration())
+		}
+		v.Assert("C08.denylist-complete", err != nil)
+	}
 }
